@@ -437,4 +437,11 @@ def main_wrapper(fn):
     except AnalysisBroken as e:
         print("ANALYSIS-BROKEN %s" % e)
         rc = 2
+    except SystemExit:
+        raise
+    except BaseException as e:      # a bug or an unforeseen shape in the analyser is never a verdict on the code
+        import traceback
+        traceback.print_exc()
+        print("ANALYSIS-BROKEN internal error in the analyser: %s: %s" % (type(e).__name__, e))
+        rc = 2
     sys.exit(rc)
